@@ -365,6 +365,8 @@ class Compiler:
       return K(v.rid)
     if isinstance(v, SO):
       return K(self.sc.obj_index(v.model))
+    if isinstance(v, SP) and v.obj in self.sc.pyobjs:
+      return K(self.sc.pyobjs.index(v.obj) + 1)
     if isinstance(v, ir.X):
       return v
     raise TranslationError("value %r is not integer-like" % (v,))
@@ -807,8 +809,13 @@ class Compiler:
       self.dyn += 1
       stop_edges = []
       self.handlers.append((("StopIteration",), stop_edges))
-      item = self.op(lists, "iter_next", [SE(V(lref)), SE(V(iv))], typ=self.sc.elem_typ.get(lists.name, "int"))
+      et = self.sc.elem_typ.get(lists.name, "int")
+      item = self.op(lists, "iter_next", [SE(V(lref)), SE(V(iv))], typ=et if et != "pyobj" else "int")
       self.handlers.pop()
+      if et == "pyobj":
+        if len(self.sc.pyobjs) != 1:
+          raise TranslationError("a list of composite objects with %d candidates" % len(self.sc.pyobjs))
+        item = SP(self.sc.pyobjs[0])           # the only composite object that can be in such a list
       self.assign_target(s.target, item)
       self.loop_body(s, head, iv, stop_edges)
       return
@@ -1343,6 +1350,30 @@ class Compiler:
       return self.lift(any(isinstance(i, SK) and i.py == x.py for i in container.items))
     raise TranslationError("`in` on %r" % (container,))
 
+  def e_IfExp(self, e):
+    c = self.cond(e.test)
+    if isinstance(c, BK):
+      return self.expr(e.body if c.v else e.orelse)
+    # lowered to control flow: either branch may perform shared operations, and only the chosen one runs
+    r = self.var("ifexp")
+    br = self._emit(ir.Branch(cond=c, t=None, f=None))
+    self.dyn += 1
+    self.dangling = [(br, "t")]
+    a = self.expr(e.body)
+    if not self.intlike(a):
+      raise TranslationError("conditional expression over objects")
+    self.assign(r, as_int(self.intx(a)))
+    ends = list(self.dangling)
+    self.dangling = [(br, "f")]
+    b = self.expr(e.orelse)
+    if not self.intlike(b):
+      raise TranslationError("conditional expression over objects")
+    self.assign(r, as_int(self.intx(b)))
+    self.dyn -= 1
+    self.dangling = ends + self.dangling
+    self.label()
+    return SE(V(r))
+
   def e_Tuple(self, e):
     return ST([self.expr(x) for x in e.elts])
 
@@ -1550,6 +1581,10 @@ class Compiler:
 
   def b_isinstance(self, comp, args, kwargs):
     v, c = args
+    if isinstance(v, SP) and isinstance(c, SClass):
+      return self.lift(issubclass(v.obj.cls, c.cls))
+    if isinstance(v, SO) and isinstance(c, SClass):
+      return self.lift(c.cls.__name__.lower() == v.model.cls.lower())
     if isinstance(c, SI) and c.name in ("str", "int", "bool", "list"):
       c = SClass({"str": str, "int": int, "bool": bool, "list": list}[c.name])
     if isinstance(v, SK) and isinstance(c, SClass):
